@@ -8,6 +8,7 @@ import (
 	"os"
 	"os/exec"
 	"path/filepath"
+	"sort"
 	"strings"
 	"unicode"
 )
@@ -561,7 +562,11 @@ func convertArguments(funcType RBSFuncType, aliases typeAliasMap, className stri
 		}
 	}
 
-	for name, kw := range funcType.RequiredKeywords {
+	// keywords are emitted in name order: the AST holds them in maps, whose
+	// iteration order changes from run to run
+	for _, name := range sortedKeywordNames(funcType.RequiredKeywords) {
+		kw := funcType.RequiredKeywords[name]
+
 		if kw.Type != nil {
 			types := convertType(*kw.Type, aliases, className)
 			args = append(args, TiArgument{
@@ -571,7 +576,9 @@ func convertArguments(funcType RBSFuncType, aliases typeAliasMap, className stri
 		}
 	}
 
-	for name, kw := range funcType.OptionalKeywords {
+	for _, name := range sortedKeywordNames(funcType.OptionalKeywords) {
+		kw := funcType.OptionalKeywords[name]
+
 		if kw.Type != nil {
 			types := convertType(*kw.Type, aliases, className)
 			args = append(args, TiArgument{
@@ -586,6 +593,18 @@ func convertArguments(funcType RBSFuncType, aliases typeAliasMap, className stri
 		args = []TiArgument{}
 	}
 	return args
+}
+
+func sortedKeywordNames(keywords map[string]RBSParam) []string {
+	names := make([]string, 0, len(keywords))
+
+	for name := range keywords {
+		names = append(names, name)
+	}
+
+	sort.Strings(names)
+
+	return names
 }
 
 func convertAttrToProperty(member RBSMember, access string, aliases typeAliasMap, className string) TiProperty {
